@@ -253,6 +253,36 @@ theorem aggsDown_final (E : List β) : ∀ (rs : List (Stage β X S Res)) (it : 
     rw [ih _ hsrc hxs, hagg, hD]
     rfl
 
+/-- every stage's aggregate of exactly the prefix of its uninterrupted output stream that it has
+delivered so far (= the whole stream minus what it will still deliver), downstream first -/
+def consumedAggs (rem : R.It → List β) : (rs : List (Stage β X S Res)) → (chainRec R rs).It →
+    List β → List S
+  | [], _, _ => []
+  | s :: ss, p, E =>
+    aggOf s.pipe ((chainOut (s :: ss) E).take
+        ((chainOut (s :: ss) E).length - (chainRem rem (s :: ss) p).length)) s.m.empty ::
+      consumedAggs rem ss (show PipeIt (chainRec R ss) β Unit S from p).src E
+
+/-- at every moment: each stage's aggregation state covers exactly what that stage has delivered -/
+theorem aggsDown_consumed (E : List β) : ∀ (rs : List (Stage β X S Res)) (it : (chainRec R rs).It),
+    chainInv Inv rem E rs it → aggsDown R rs it = consumedAggs rem rs it E := by
+  intro rs
+  induction rs with
+  | nil => intro _ _; rfl
+  | cons s ss ih =>
+    intro p hp
+    obtain ⟨⟨⟨hsrc, _⟩, _, D, hD, hagg⟩, _⟩ := hp
+    show (show PipeIt (chainRec R ss) β Unit S from p).agg ::
+      aggsDown R ss (show PipeIt (chainRec R ss) β Unit S from p).src = _
+    rw [ih _ hsrc, hagg]
+    have hD' : D ++ chainRem rem (s :: ss) p = chainOut (s :: ss) E := hD
+    have : (chainOut (s :: ss) E).take ((chainOut (s :: ss) E).length - (chainRem rem (s :: ss) p).length) = D := by
+      rw [← hD']
+      simp
+    show _ = aggOf s.pipe _ s.m.empty :: _
+    rw [this]
+    rfl
+
 theorem finalAggs_length (E : List β) : ∀ rs : List (Stage β X S Res),
     (finalAggs rs E).length = rs.length := by
   intro rs
